@@ -9,3 +9,4 @@ import DafRel.Props.C07
 #print axioms DafRel.Props.C07.multi_engine_process_then_execute_yields_direct_rows
 #print axioms DafRel.Props.C07.repeated_processing_yields_direct_rows
 #print axioms DafRel.Props.C07.trivial_transfer_calls_no_hook
+#print axioms DafRel.Props.C07.materialize_hook_only_when_needed
